@@ -76,9 +76,11 @@ def run(ctx):
             continue
         ev.append({'k': 'frame', 'text': codepoints(text), 'framed': codepoints(framed), 'hashes': [codepoints(h.name) for _, h in signers],
                    'sigbin': octets(sigbin), 'cls': cls})
-        for variant, data in (('lf', framed), ('crlf', framed.replace('\r\n', '\n').replace('\n', '\r\n'))):
+        for variant, data in (('lf', framed), ('crlf', framed.replace('\r\n', '\n').replace('\n', '\r\n')), ('lf', framed.encode('utf-8'))):
             if variant == 'crlf' and (cls == 'lonecr' or '\r' in text):
                 continue
+            if isinstance(data, bytes) and cls == 'ascii' and n % 5:
+                continue                                   # the message as octets (UTF-8), as read from a file
             try:
                 m2 = pgpy.PGPMessage.from_blob(data)
                 verdicts = [bool(p.verify(m2)) for p, (k, h) in zip(pubs, [(k1, 0), (k2, 0), (k3, 0)]) if k.fingerprint.keyid in m2.signers]
@@ -90,7 +92,20 @@ def run(ctx):
         if cls != 'lonecr' and '\r' not in text.replace('\r\n', ''):
             s = m.signatures[0]
             tb = text.encode('utf-8')
-            ev.append({'k': 'canon', 'text': octets(tb), 'hashdata': octets(s.hashdata(text)), 'sig': octets(bytes(s)), 'cls': cls,
+            # what did PGPy sign? Decided by the independent verifier: the harness proposes the RFC 4880 7.1 octets (validated by TLC against
+            # CanonCleartext and the trailer of the signature as written) and the primitive says whether the signature is over their digest
+            body = build.read_packets(bytes(s))[0][1]
+            f = build.read_sig_body(body)
+            canon_ = b'\r\n'.join(l.rstrip(' \t').encode('utf-8') for l in text.replace('\r\n', '\n').split('\n'))
+            claimed = canon_ + bytes(f['region']) + b'\x04\xff' + struct.pack('>I', len(f['region']))
+            hname = {1: 'md5', 2: 'sha1', 3: 'ripemd160', 8: 'sha256', 9: 'sha384', 10: 'sha512', 11: 'sha224'}[f['h']]
+            kbody = next(b for t_, b, r_ in build.read_packets(bytes(signers[0][0].pubkey)) if t_ == 6)
+            try:
+                digest = hashlib.new(hname, claimed).digest()
+                prim = bool(build.verify_digest(f['pk'], kbody[6:], digest, hname, f['ints'])) and digest[:2] == bytes(f['left16'])
+            except Exception:
+                prim = False
+            ev.append({'k': 'canon', 'text': octets(tb), 'claimed_input': octets(claimed), 'primitive_ok': prim, 'sig': octets(bytes(s)), 'cls': cls,
                        'trailing_blank': any(l.rstrip(' \t') != l for l in text.replace('\r\n', '\n').split('\n'))})
     # ---- independent cleartext signer
     fk = build.ForeignKey('ed25519')
@@ -138,7 +153,7 @@ def run(ctx):
     ctx.selftest(lambda b: ctx.judge('Trace_C11', b), good,
                  [('a dash line left unescaped', c_unescaped), ('re-read text differs', lambda e: dict(e, reread=e['reread'] + [120]) if e['k'] == 'reread' and not e['raised'] else None),
                   ('verification falsy', lambda e: dict(e, verdict='falsy') if e['k'] == 'reread' and not e['raised'] else None),
-                  ('signed octets differ', lambda e: dict(e, hashdata=[e['hashdata'][0] ^ 1] + e['hashdata'][1:]) if e['k'] == 'canon' else None),
+                  ('signature is not over the RFC octets', lambda e: dict(e, primitive_ok=False) if e['k'] == 'canon' else None),
                   ('Hash header misses a hash', lambda e: dict(e, hashes=e['hashes'] + [[88]]) if e['k'] == 'frame' else None)], 'C11')
     ctx.extra['events_by_kind'] = {k: sum(1 for e in ev if e['k'] == k) for k in ('frame', 'reread', 'canon', 'foreign')}
     for idx, clause in rej:
